@@ -16,6 +16,8 @@ if [ "$TIER" = thorough ] && [ -d "$HERE/seeded" -o -d "$HERE/mutants" ]; then
   SELF="$(mktemp /dev/shm/h5sa-selftest.XXXXXX.json 2>/dev/null || mktemp)"
   "$HERE/selftest.sh" "$PROP" "$SELF" >&2 || true
   export H5SA_SELFTEST_JSON="$SELF"
+  # maintenance: keep a copy for gen_catch_table.py (ST_DIR) so that the self-test is not run twice
+  [ -n "${H5SA_KEEP_SELFTEST:-}" ] && cp "$SELF" "$H5SA_KEEP_SELFTEST/$PROP.json" 2>/dev/null
 fi
 "$HERE/bin/h5sa" -prop "$PROP" -tier "$TIER" -repo "$REPO" -verif "$HERE"
 rc=$?
